@@ -266,6 +266,8 @@ def main(argv):
                     r['functions'] = sorted(set(r['functions']) | set(prev['functions']))
                     r['witnesses'] = (prev['witnesses'] + r['witnesses'])[:wcap * 2]
                 results[r['name']] = r
+                if r['status'] == 'vacuous' and r.get('exclude'):
+                    r['status'] = 'known-finding'     # every input of this template lies in a listed known-finding region
                 if r['status'] == 'refuted':
                     t = tmpl[r['name']]
                     cexjobs.append({'id': r['name'], 'mod': t['mod'], 'fn': t['fn'], 'params': t['params'],
